@@ -42,6 +42,11 @@ CLAIMS = {
         "note": "The file reader is replaced by a path->text table (its body is checked structurally); decoding by open() is trusted. Trusts ast, /verif/sa.",
         "technique": "typestate (path vs text) decided by abstract interpretation with distinguishable witnesses; interval order-type analysis of the window",
     },
+    "C20": {
+        "text": "Whole-package ownership and effect rules decided on the syntax trees: write-once fields (every attribute store enumerated), no mutation of shared tables / instance state / arguments, set-iteration order reaches text only through order-insensitive consumers (classified structurally), no hidden inputs; zero-match rules carry an in-tree positive control that must fire on every run.",
+        "note": "Not decided: confluence of the interval worklists under different set orders (assumed for the set-in/set-out worklists, listed in the evidence). The rules are sufficient conditions for history independence given Python semantics. Trusts ast.",
+        "technique": "ownership / effect analysis and iteration-order taint over the AST (who-may-write, mutation sites, set-typed flow)",
+    },
 }
 
 NOT_APPLICABLE = {
